@@ -381,6 +381,10 @@ class Channel(BaseChannel):
                 time.sleep(IDLE_WAIT)
                 continue
             break
+        if self._connection.exceptions:
+            # The connection failed and another thread closed it first; do
+            # not return as if consuming had been stopped.
+            self.check_for_errors()
 
     def stop_consuming(self):
         """Stop consuming messages.
